@@ -1,10 +1,11 @@
-(** The instruction encoder plugged into Model/Asm.v (placeholder until Model/X86Enc.v lands). *)
+(** The instruction encoder plugged into Model/Asm.v. *)
 From Coq Require Import List ZArith String Bool.
-From Gosk Require Import Base.Bytes Model.Ast Model.Eval Model.Asm.
+From Gosk Require Import Base.Bytes Model.Ast Model.Eval Model.Asm Model.X86Enc.
 Import ListNotations.
 Local Open Scope Z_scope.
 
 Definition null_encoder : encoder :=
-  {| enc_est := fun _ _ _ => None; enc_kind_ok := fun _ => false; enc_emit := fun _ _ _ _ => BytesDiag [] |}.
+  {| enc_est := fun _ _ _ => None; enc_kind_ok := fun _ => false; enc_emit := fun _ _ _ _ => BytesDiag [];
+     enc_diag := fun _ _ _ => false; enc_unmodelled := fun _ _ _ => false |}.
 
-Definition gosk_encoder : encoder := null_encoder.
+Definition gosk_encoder : encoder := x86_encoder.
